@@ -478,11 +478,16 @@ def oracle_raw(R):
                                   f"fresh instance of {n}: attribute {m.group(1)}.{m.group(2)} is wired to a redefining attribute although no "
                                   f"explicit redeclaration in {closure} redeclares the {m.group(2)} of {m.group(1)}", ("entity", e["name"])))
                     break
-            if m and "d" in m.group(4) and m.group(3) == "E":
+            if m and m.group(3) == "E":
                 derived_somewhere = any(a["kind"] == "D" and a["redecl"] and a["name"].lower() == m.group(2)
                                         and m.group(1) in [d.lower() for d in s.declarers(a["redecl"], a["name"])]
                                         for mm in closure for a in s.Ent(mm)["attrs"])
-                if not derived_somewhere:
+                if derived_somewhere and "d" not in m.group(4):
+                    probs.append(("flags:derived-redeclaration-not-marked",
+                                  f"fresh instance of {n}: attribute {m.group(1)}.{m.group(2)} is not flagged derived (its position is read and "
+                                  f"written as a value, `*` is refused) although a DERIVE clause in {closure} redeclares it", ("entity", e["name"])))
+                    break
+                if "d" in m.group(4) and not derived_somewhere:
                     probs.append(("flags:explicit-redeclaration-marked-derived",
                                   f"fresh instance of {n}: attribute {m.group(1)}.{m.group(2)} is flagged derived (written `*`) although no DERIVE "
                                   f"clause in {closure} redeclares it", ("entity", e["name"])))
